@@ -31,11 +31,13 @@ class C23(PtgCheck):
                   "overflow in the bounds and Π ranges <= 2^64.")
     technique = "Coq proof (mixed-radix injectivity / inversion over the enumerated execution space) + differential run of the generated key functions"
     rule = ("parameter-space shapes (1-4 parameters; negative, expression, derived-local and parameter-dependent bounds; steps; all-negative "
-            "ranges; parameters defined by expressions; header order != definition order) plus the C01 DAG templates; "
+            "ranges; parameters defined by expressions; header order != definition order), few instances in huge bounding boxes (3-4 parameters, "
+            "steps 2^10..2^30, negative bounds, product of the leading ranges 2^31-+small / 2^32 / 2^40 / 2^62..2^63, total <= 2^64) "
+            "plus the C01 DAG templates; "
             "non-trivial = a class with at least 2 instances; distinct = program text")
     trusted = ("harness/ptg_driver.c reads the logged locals of every executed instance and calls tp->task_classes_array[id]->make_key / "
                "key_functions->key_print on them",)
-    assumptions = ("the product of the parameter ranges of a class is at most 2^64 and int32 bounds do not overflow (generator: <= 150 instances)",
+    assumptions = ("the product of the parameter ranges of a class is at most 2^64, every range fits an int and int32 bounds do not overflow (generator: <= 200 instances, boxes up to 2^64)",
                    "every executed instance is logged (C01) — keys are computed for the executed instances")
 
     def cases(self):
@@ -44,6 +46,11 @@ class C23(PtgCheck):
         n = 16 if self.tier == "quick" else 150
         for i in range(n):
             p = jdfgen.gen_program(r, "keys", max_inst=150)
+            out.append("keys %s | %s" % (" ".join(self.draw_configs(r, 1)), jdfgen.to_case(p)))
+        # few instances in huge bounding boxes: the multiplier of the last parameter is 2^31 -+ small, 2^32, 2^40, 2^62..2^63
+        kinds = ["31-", "31+", "32", "40", "63"]
+        for i in range(6 if self.tier == "quick" else 60):
+            p = jdfgen.gen_program(r, "keysbig", max_inst=200, big_target=kinds[i % 5] if i < 5 else None)
             out.append("keys %s | %s" % (" ".join(self.draw_configs(r, 1)), jdfgen.to_case(p)))
         for i in range(6 if self.tier == "quick" else 40):
             p = jdfgen.gen_program(r)
@@ -62,12 +69,18 @@ class C23(PtgCheck):
 
     def dist(self, cases):
         d = PtgCheck.dist(self, cases)
-        d.update({"params_hist": {}, "derived_param_classes": 0, "permuted_header_classes": 0})
+        d.update({"params_hist": {}, "derived_param_classes": 0, "permuted_header_classes": 0, "log2_leading_range_product_hist": {}})
         for c in cases:
             try:
                 p = jdfgen.parse_case(c.split("|", 1)[1])
             except Exception:
                 continue
+            for bs in jdfgen.range_boxes(p):
+                lead = 1
+                for b in bs[:-1]:
+                    lead *= max(b, 1)
+                k = str(10 * ((lead.bit_length() - 1) // 10)) + "+"
+                d["log2_leading_range_product_hist"][k] = d["log2_leading_range_product_hist"].get(k, 0) + 1
             for cl in p.classes:
                 k = str(len(cl.params))
                 d["params_hist"][k] = d["params_hist"].get(k, 0) + 1
